@@ -336,6 +336,10 @@ func (t *TClient) Exec(c *Ctx, op TOp) bool {
 		t.callSeq++
 		tag := fmt.Sprintf("c:%s:%d", t.Name, t.callSeq)
 		cr := &CallRec{Req: req, Tag: tag, Proc: op.URI}
+		if to, ok := wamp.AsInt64(op.Opts["timeout"]); ok {
+			cr.Timeout = to
+		}
+		cr.Progress, _ = op.Opts["receive_progress"].(bool)
 		chunks := op.Chunks
 		if t.Stalled {
 			// a client that is not reading cannot notice that its call was
@@ -344,6 +348,9 @@ func (t *TClient) Exec(c *Ctx, op TOp) bool {
 		}
 		for i := 0; i < chunks; i++ {
 			o := wamp.Dict{"progress": i < chunks-1}
+			for k, v := range op.Opts {
+				o[k] = v // receive_progress, timeout: as given with the first chunk
+			}
 			if !t.SendRec(&wamp.Call{Request: req, Options: o, Procedure: op.URI, Arguments: wamp.List{tag, i}}) {
 				return false
 			}
